@@ -7,7 +7,7 @@ run_histories: one pool (dict OutputPool or on-disk ArrayPool under /var/tmp) go
             descendants are removed first: a pool keyed by node name cannot notice a changed function)
   RO        ArrayPool only: close() -> ArrayPool.open(name, prefix)
 over the model  t1, t2 (priors) -> y (simulator, stochastic) -> S1, S2 -> d,  for store sets "of the stated form"
-(non-empty subset of {y, S1, S2, d}, optionally together with {t1, t2}).  Every user operation records (node, batch_index)
+(non-empty subset of {y, S1, S2, d}, optionally together with {t1, t2}); requested user outputs alternate between (y, S1, S2) and none.  Every user operation records (node, batch_index)
 of each invocation (through elfi's `meta` argument) and its output.  Oracle (from the property text), after every run:
   (a) Sample outputs / n_sim / n_batches / threshold are exactly those of the pool-free run with the same seed on the same model,
   (b) no operation of a stored node was invoked for a batch the pool held for it before the run; nothing is invoked twice per batch,
@@ -42,11 +42,23 @@ def store_sets():
     return out
 
 
-def admissible(stores):
-    """store_set_admissible for this model and OUTPUTS (+ d): when the pool holds a batch, the stochastic nodes that are skipped
-    must form a suffix of (t1, t2, y) in execution order or be all of them.  y is re-executed iff it is not stored (y itself is a
-    requested output); so the set is inadmissible exactly when a parameter is stored and y is not."""
-    return not (any(p in stores for p in PARAMS) and 'y' not in stores)
+def executed(stores, outputs):
+    """nodes whose operation has to run for a batch the pool holds completely: the requested outputs (user outputs + parameters +
+    discrepancy) that are not stored, and recursively their parents that are not stored"""
+    todo = [n for n in tuple(outputs) + PARAMS + ('d',) if n not in stores]
+    ex = set()
+    while todo:
+        n = todo.pop()
+        if n not in ex:
+            ex.add(n)
+            todo.extend(p for p in ANC[n] if p not in stores)
+    return ex
+
+
+def admissible(stores, outputs=OUTPUTS):
+    """store_set_admissible for this model: when the pool holds a batch, the stochastic nodes that are skipped must form a suffix of
+    (t1, t2, y) in execution order (or be all of them): inadmissible exactly when a parameter is stored and y has to be executed."""
+    return not (any(p in stores for p in PARAMS) and 'y' in executed(stores, outputs))
 
 
 # ---------------------------------------------------------------------------------------------- model with recorders
@@ -103,14 +115,14 @@ def build(elfi, variant, rec):
 _ref_cache = {}
 
 
-def reference(elfi, variant, b, seed, k):
+def reference(elfi, variant, b, seed, k, outputs=OUTPUTS):
     """the pool-free run: Sample of k batches + per-batch record of every node's value (from a KMAX-batch run)"""
-    c = _ref_cache.setdefault((native.repo(), variant, b, seed), {})
+    c = _ref_cache.setdefault((native.repo(), variant, b, seed, tuple(outputs)), {})
     for kk in (k, KMAX):
         if kk not in c:
             rec = Rec()
             m = build(elfi, variant, rec)
-            res = elfi.Rejection(m['d'], batch_size=b, seed=seed, output_names=list(OUTPUTS)).sample(3, n_sim=kk * b, bar=False)
+            res = elfi.Rejection(m['d'], batch_size=b, seed=seed, output_names=list(outputs)).sample(3, n_sim=kk * b, bar=False)
             c[kk] = (res, rec)
     return c[k][0], c[KMAX][1]
 
@@ -134,7 +146,7 @@ def held(pool):
 
 
 # ---------------------------------------------------------------------------------------------- one history
-def run_history(elfi, kind, stores, hist, b, seed, tmp):
+def run_history(elfi, kind, stores, hist, b, seed, tmp, outputs=OUTPUTS):
     """-> None or dict(what, signature)"""
     variant = (0, 0)
     if kind == 'dict':
@@ -147,14 +159,14 @@ def run_history(elfi, kind, stores, hist, b, seed, tmp):
             where = 'step %d (%s)' % (step, op)
             if op in ('R2', 'R3'):
                 k = int(op[1])
-                ref, ref_rec = reference(elfi, variant, b, seed, k)
+                ref, ref_rec = reference(elfi, variant, b, seed, k, outputs)
                 before = held(pool)
                 rec = Rec()
                 m = build(elfi, variant, rec)
                 if pool.has_context:
                     for kw, nm in ((dict(batch_size=b + 1), 'batch_size'), (dict(batch_size=b, seed=seed + 1), 'seed')):
                         try:
-                            elfi.Rejection(m['d'], output_names=list(OUTPUTS), pool=pool, **kw)
+                            elfi.Rejection(m['d'], output_names=list(outputs), pool=pool, **kw)
                             return dict(what='%s: a different %s than the pool was created with is accepted' % (where, nm), signature='c05:context-not-refused')
                         except ValueError:
                             pass
@@ -163,11 +175,11 @@ def run_history(elfi, kind, stores, hist, b, seed, tmp):
                     kw['seed'] = seed
                 n_run += 1
                 try:
-                    rej = elfi.Rejection(m['d'], output_names=list(OUTPUTS), pool=pool, **kw)
+                    rej = elfi.Rejection(m['d'], output_names=list(outputs), pool=pool, **kw)
                 except ValueError as e:
                     return dict(what='%s: the pool refuses its own batch_size / seed: %s' % (where, e), signature='c05:context-refused')
                 res = rej.sample(3, n_sim=k * b, bar=False)
-                tag = '' if admissible([s for s in pool.stores]) else ' [parameters stored, simulator re-executed]'
+                tag = '' if admissible([s for s in pool.stores], outputs) else ' [parameters stored, simulator re-executed]'
                 w = same_sample(res, ref)
                 if w:
                     return dict(what='%s: %s%s' % (where, w, tag), signature='c05:params-stored-sim-reexecuted' if tag else 'c05:result-differs')
@@ -267,12 +279,13 @@ def run_histories(tier='quick', seed=0, stop_first=True, only_admissible=None):
                         plan.append((kind, st, h, b))
         for kind, st, h, b in plan:
             cases += 1
+            outs = OUTPUTS if cases % 2 else ()
             sd = 3 + seed + (cases % 3)
             nontrivial += 1 if len(h) >= 2 else 0
-            inp = dict(vehicle='history', kind=kind, stores=list(st), history=list(h), batch_size=b, seed=sd)
+            inp = dict(vehicle='history', kind=kind, stores=list(st), history=list(h), batch_size=b, seed=sd, outputs=list(outs))
             try:
                 with native.time_limit(60):
-                    f = run_history(elfi, kind, st, h, b, sd, tmp)
+                    f = run_history(elfi, kind, st, h, b, sd, tmp, outs)
             except native.NativeTimeout as e:
                 f = dict(what=str(e), signature='c05:timeout')
             except Exception as e:
@@ -420,6 +433,6 @@ def replay_input(inp):
     tmp = tempfile.mkdtemp(prefix='c05-pools-', dir='/var/tmp')
     try:
         with native.time_limit(60):
-            return run_history(elfi, inp['kind'], tuple(inp['stores']), tuple(inp['history']), inp['batch_size'], inp['seed'], tmp) is None
+            return run_history(elfi, inp['kind'], tuple(inp['stores']), tuple(inp['history']), inp['batch_size'], inp['seed'], tmp, tuple(inp.get('outputs', OUTPUTS))) is None
     finally:
         shutil.rmtree(tmp, ignore_errors=True)
